@@ -97,6 +97,9 @@ package rapidcore
 //@   ensures [second] old(s.invokeCtx) != nil && invokeID == old(s.invokeCtx.Token.InvokeID) && old(s.invokeCtx.ReplySent) ==> r0 == interop.ErrResponseSent && noReplyWritten() && unchanged(s.invokeCtx, s.invokeCtx.ReplySent, s.invokeCtx.ReplyStream, s.invokeCtx.Direct)
 //@   ensures [no-stream] srvAccepts(s, invokeID) && old(s.invokeCtx.ReplyStream) == nil ==> r0 != nil && noReplyWritten() && !s.invokeCtx.ReplySent
 //@   ensures [read-fail] srvBuffered(s, invokeID) && readFails(payload) ==> r0 != nil && noReplyWritten() && !s.invokeCtx.ReplySent
+// C02: a submission for the in-flight id whose body breaks off is refused as such (a typed error the handler answers with a
+// client error), not with an untyped error that the handler can only panic on
+//@   ensures [C02: a-body-that-breaks-off-is-reported-as-truncated] srvBuffered(s, invokeID) && readFails(payload) ==> typeis(r0, *interop.ErrTruncatedResponse)
 //@   ensures [oversize] srvBuffered(s, invokeID) && !readFails(payload) && readerLen(payload) > interop.MaxPayloadSize ==> typeis(r0, *interop.ErrorResponseTooLarge) && r0.(*interop.ErrorResponseTooLarge).ResponseSize == readerLen(payload) && r0.(*interop.ErrorResponseTooLarge).MaxResponseSize == interop.MaxPayloadSize
 //@   ensures [oversize-no-effect] srvBuffered(s, invokeID) && !readFails(payload) && readerLen(payload) > interop.MaxPayloadSize ==> noReplyWritten() && !s.invokeCtx.ReplySent && unchanged(s.invokeCtx)
 //@   ensures [deliver] srvBuffered(s, invokeID) && !readFails(payload) && readerLen(payload) <= interop.MaxPayloadSize ==> ghost(httpWrites) == old(ghost(httpWrites)) + 1 && ghost(httpLastContent) == readerContent(payload) && ghost(httpLastLen) == readerLen(payload) && ghost(httpLastWriter) == ref(old(s.invokeCtx.ReplyStream))
